@@ -13,6 +13,7 @@ package simrt
 
 import (
 	"fmt"
+	"os"
 	"runtime"
 	"runtime/debug"
 	"syscall"
@@ -387,6 +388,9 @@ func (s *Sim) schedule(self *Task) {
 	}
 }
 
+// DumpStacks (diagnosis only): print every goroutine's stack when a run ends in deadlock or step-limit.
+var DumpStacks = false
+
 //go:norace
 func (s *Sim) allDone() bool {
 	for i := int32(0); i < s.n; i++ {
@@ -418,6 +422,11 @@ func (s *Sim) finish(outcome string) {
 	s.ended = true
 	if s.outcome == "" || s.outcome == "divergence" {
 		s.outcome = outcome
+	}
+	if DumpStacks && (outcome == "deadlock" || outcome == "step-limit") {
+		buf := make([]byte, 4<<20)
+		n := runtime.Stack(buf, true)
+		os.Stderr.Write(buf[:n])
 	}
 	mode = ModeDying
 	close(s.doneCh)
